@@ -47,6 +47,40 @@ func genMapCase(t *rapid.T) MapCase {
 		c.Ops = append(pre, c.Ops...)
 		c.Ops = append(c.Ops, MOp{Kind: "seekAbsent", A: 2 + 3*rapid.IntRange(0, 60).Draw(t, "sa")}, MOp{Kind: "prev"}, MOp{Kind: "prev"})
 	}
+	if !c.Zero && vk.Rare(t, "spine", 12) {
+		// a sorted fill, then everything is deleted except the last few keys and
+		// a thinning sample of their ancestors: the survivors sit on one long
+		// path (the map is as deep as its peak size allowed) - then Seek each
+		n := rapid.SampledFrom([]int{32, 33, 64, 100}).Draw(t, "spineN")
+		up := rapid.Bool().Draw(t, "spineUp")
+		key := func(i int) int {
+			if up {
+				return i
+			}
+			return n - 1 - i
+		}
+		blk := []MOp{{Kind: "clear"}}
+		for i := 0; i < n; i++ {
+			blk = append(blk, MOp{Kind: "set", A: key(i)})
+		}
+		keep := map[int]bool{}
+		for _, d := range []int{0, 1, 2, 3, 5, 9, 17, 25, 33, 65} {
+			if n-1-d >= 0 {
+				keep[n-1-d] = true
+			}
+		}
+		for i := 0; i < n; i++ {
+			if !keep[i] {
+				blk = append(blk, MOp{Kind: "del", A: key(i)})
+			}
+		}
+		for i := n - 1; i >= 0; i-- {
+			if keep[i] {
+				blk = append(blk, MOp{Kind: "seek", A: key(i)}, MOp{Kind: "get", A: key(i)})
+			}
+		}
+		c.Ops = append(c.Ops, blk...)
+	}
 	return c
 }
 
